@@ -118,6 +118,7 @@ type annOutcome struct {
 	noPeriod bool              // an ok answer was not followed by an announce after the interval (not a C16 matter)
 	calls    int64
 	closeOK  bool
+	completedSeen bool // the "completed" announce was made after a completion during an announce in flight
 }
 
 func seqString(seq []annAnswer) string {
@@ -130,7 +131,10 @@ func seqString(seq []annAnswer) string {
 
 // runAnnouncerSeq executes one answer sequence against a real PeriodicalAnnouncer inside the current
 // synctest bubble. needMore: NeedMorePeers(true) is signalled after every answer.
-func runAnnouncerSeq(seq []annAnswer, needMore bool) (out annOutcome) {
+// completeAt: the download completes (completedC closes) while announce number completeAt is in flight
+// (-1: never): the announcer abandons that call and must make a "completed" announce, which then gets the
+// answer meant for the abandoned one.
+func runAnnouncerSeq(seq []annAnswer, needMore bool, completeAt int) (out annOutcome) {
 	trk := &annTracker{calls: make(chan *annCall)}
 	newPeers := make(chan []*net.TCPAddr)
 	quit := make(chan struct{})
@@ -216,6 +220,25 @@ func runAnnouncerSeq(seq []annAnswer, needMore bool) (out annOutcome) {
 			// the retry of the last answer has been observed; leave this call hanging, Close must cancel it
 			break
 		}
+		if i == completeAt {
+			close(completedC)
+			synctest.Wait()
+			c2 := waitCall(annBackoffBound)
+			if c2 == nil {
+				st := an.Stats()
+				out.violKey = "C16.retry.missing.after-complete"
+				out.violDesc = fmt.Sprintf("answers [%s] (needMorePeers=%v): the download completed while announce #%d was in flight; no announce was made afterwards within %v (announcer status %d, 1=Contacting)",
+					seqString(seq[:i]), needMore, i+1, annBackoffBound, st.Status)
+				break
+			}
+			if c2.req.Event != tracker.EventCompleted {
+				out.violKey = "C16.announcer.completed-event-missing"
+				out.violDesc = fmt.Sprintf("answers [%s]: after completion during announce #%d the next announce has event %v", seqString(seq[:i]), i+1, c2.req.Event)
+				break
+			}
+			out.completedSeen = true
+			c = c2
+		}
 		if seq[i] != ansHang {
 			c.reply <- seq[i]
 		}
@@ -285,6 +308,7 @@ type annAgg struct {
 	Stuck     int64               `json:"stuck"`
 	Calls     int64               `json:"calls"`
 	NoPeriod  int64               `json:"no_period"`
+	Completed int64               `json:"completed"`
 	Execs     int64               `json:"execs"`
 	Viol      map[string]*annViol `json:"viol"`
 	Samples   []string            `json:"samples"`
@@ -322,7 +346,11 @@ func annWorker(t *testing.T, job core.Job) json.RawMessage {
 			return
 		}
 		seq := append([]annAnswer{}, cur...)
-		for _, needMore := range []bool{false, true} {
+		for _, nc := range []struct {
+			needMore   bool
+			completeAt int
+		}{{false, -1}, {true, -1}, {false, 0}, {false, len(seq) - 1}, {true, len(seq) / 2}} {
+			needMore, completeAt := nc.needMore, nc.completeAt
 			var out annOutcome
 			var pan string
 			synctest.Test(t, func(t *testing.T) {
@@ -331,7 +359,7 @@ func annWorker(t *testing.T, job core.Job) json.RawMessage {
 						pan = fmt.Sprintf("%v at %s", p, topRepoFrame())
 					}
 				}()
-				out = runAnnouncerSeq(seq, needMore)
+				out = runAnnouncerSeq(seq, needMore, completeAt)
 				if !out.closeOK {
 					// the bubble cannot be left: report and end this worker process
 					ag.addViol("C16.announcer.close-blocks", annViol{Desc: fmt.Sprintf("answers [%s] (needMorePeers=%v): Close did not return / Run did not end", seqString(seq), needMore),
@@ -356,6 +384,9 @@ func annWorker(t *testing.T, job core.Job) json.RawMessage {
 			if out.noPeriod {
 				ag.NoPeriod++
 			}
+			if out.completedSeen {
+				ag.Completed++
+			}
 			ag.Calls += out.calls
 			if !needMore && (idx-j.Lo) == total/2 {
 				ag.Samples = append(ag.Samples, fmt.Sprintf("[%s] -> announce calls=%d violation=%q", seqString(seq), out.calls, out.violKey))
@@ -378,7 +409,7 @@ func TestC16Announcer(t *testing.T) {
 		maxLen = 7
 	}
 	rep.Rule = fmt.Sprintf("every sequence of tracker answers of length 1..%d over {ok(30min), error, tracker failure, tracker failure with retry-in 2min, context.DeadlineExceeded, "+
-		"context.Canceled while the announcer's own context is live (abort caused by another torrent), hang (terminal)} x {NeedMorePeers never / signalled after every answer}, "+
+		"context.Canceled while the announcer's own context is live (abort caused by another torrent), hang (terminal)} x {NeedMorePeers never / signalled after every answer} x {the download never completes / completes while the first, the last, a middle announce is in flight}, "+
 		"each executed on the real PeriodicalAnnouncer.Run inside its own synctest bubble; after each answer virtual time runs to the next timer. "+
 		"Oracle: an announce that ended without a reply is followed by another Announce call within the back-off bound (45min+1ns = MaxInterval*(1+RandomizationFactor), or the tracker's retry-in), "+
 		"measured on the virtual clock; Close returns and Run ends. Distinct = distinct (sequence, needMorePeers) pairs.", maxLen)
@@ -424,6 +455,7 @@ func TestC16Announcer(t *testing.T) {
 		total.Stuck += ag.Stuck
 		total.Calls += ag.Calls
 		total.NoPeriod += ag.NoPeriod
+		total.Completed += ag.Completed
 		total.Execs += ag.Execs
 		for k, v := range ag.Viol {
 			total.addViol(k, *v)
@@ -455,6 +487,7 @@ func TestC16Announcer(t *testing.T) {
 	}
 	rep.Extra["executions_ending_without_retry"] = stuck
 	rep.Extra["ok_not_followed_by_periodic_announce"] = noPeriod
+	rep.Extra["completed_announces_after_completion_during_an_announce"] = total.Completed
 	rep.Extra["bounds"] = fmt.Sprintf("sequence length<=%d, %d answers", maxLen, int(numAnswers))
 	if retries[ansError] == 0 || retries[ansOK] == 0 || retries[ansTrackerRetry] == 0 || retries[ansDeadline] == 0 {
 		rep.Vacuous("vacuous announcer run: retries=%v", retries)
